@@ -133,10 +133,29 @@ def rule_argorder(ctx):
     rets = [s for s in flow.stmts if isinstance(s, ast.Return)]
     if not rets or not all(isinstance(r.value, ast.Call) for r in rets):
         raise AnalysisError("integrate_column does not return calls of the integration routine")
+    def plain(e_):
+        """the argument behind conversions that numpy's routine applies itself: asanyarray(v), `None if v is None else asanyarray(v)`"""
+        while True:
+            if isinstance(e_, ast.Call) and (dotted(e_.func) or "").split(".")[-1] in ("asanyarray", "asarray") and len(e_.args) == 1 and not e_.keywords:
+                e_ = e_.args[0]
+            elif isinstance(e_, ast.IfExp) and isinstance(e_.body, ast.Constant) and e_.body.value is None and isinstance(e_.test, ast.Compare) \
+                    and len(e_.test.ops) == 1 and isinstance(e_.test.ops[0], ast.Is) and norm(e_.test.comparators[0]) == "None" \
+                    and norm(plain(e_.orelse)) == norm(e_.test.left):
+                e_ = e_.test.left
+            elif isinstance(e_, ast.IfExp) and isinstance(e_.orelse, ast.Constant) and e_.orelse.value is None and isinstance(e_.test, ast.Compare) \
+                    and len(e_.test.ops) == 1 and isinstance(e_.test.ops[0], ast.IsNot) and norm(e_.test.comparators[0]) == "None" \
+                    and norm(plain(e_.body)) == norm(e_.test.left):
+                e_ = e_.test.left
+            else:
+                return e_
     # extra returns: a variant that integrates with a scalar spacing instead of the coordinate
+    same_shape = len(rets) > 1 and len({(len(r.value.args), tuple(sorted(k.arg or "" for k in r.value.keywords))) for r in rets}) == 1 \
+        and len({tuple(norm(a_) for a_ in r.value.args) + tuple(norm(k.value) for k in r.value.keywords) for r in rets}) == 1
+    if same_shape and not all(any(t_ in norm(r.value.func) for t_ in ("trapezoid", "trapz")) for r in rets):
+        raise AnalysisError("integrate_column: one of the integration routines selected is not the trapezoidal rule: %s" % [norm(r.value.func) for r in rets])
     for r in rets[:-1]:
-        kw_ = {k.arg: norm(k.value) for k in r.value.keywords}
-        passes_x = (len(r.value.args) > 1 and norm(r.value.args[1]) == x) or kw_.get("x") == x
+        kw_ = {k.arg: norm(plain(k.value)) for k in r.value.keywords}
+        passes_x = (len(r.value.args) > 1 and norm(plain(r.value.args[1])) == x) or kw_.get("x") == x
         if not passes_x:
             guards = []
             n_ = parent(r)
@@ -165,8 +184,8 @@ def rule_argorder(ctx):
     else:
         is_trap = any(t in ctxt for t in ("trapezoid", "trapz"))
     ctx.ob("integrate_column.routine", is_trap, "integrates with %s" % ctxt, "numpy's trapezoidal rule (np.trapezoid / np.trapz)", node=c, func=f)
-    a = [norm(v) for v in c.args]
-    kw = {k.arg: norm(k.value) for k in c.keywords}
+    a = [norm(plain(v)) for v in c.args]
+    kw = {k.arg: norm(plain(k.value)) for k in c.keywords}
     sig = ["y", "x", "dx", "axis"]          # numpy.trapezoid(y, x=None, dx=1.0, axis=-1)
     bound_ = dict(zip(sig, a))
     if any(k is None for k in kw) or any(k not in sig for k in kw) or any(k in bound_ for k in kw) or len(a) > 4:
@@ -579,20 +598,19 @@ def rule_isa(ctx):
     # the tables by their roles in interp1d(X, Y)(Z): Y = <temperatures> + constants.K, X = <heights> in height coordinates and
     # log(<pressures>) in pressure coordinates (whatever the tables are called and wherever they are written down)
     flow = Flow(f)
-    ip = [c for c in calls_in(f.node, "interp1d")]
-    if len(ip) != 1 or len(ip[0].args) < 2:
+    ips = [c for c in calls_in(f.node, "interp1d") if len(c.args) >= 2]
+    if not ips:
         raise AnalysisError("standard_atmosphere: interp1d(x, y) call not found")
-    outer = parent(ip[0])
-    zarg = None
-    if isinstance(outer, ast.Call) and outer.func is ip[0] and outer.args:
-        zarg, at_ = outer.args[0], outer
-    else:
-        st_ = enclosing_stmt(ip[0])
+
+    def eval_point(ipc):
+        outer = parent(ipc)
+        if isinstance(outer, ast.Call) and outer.func is ipc and outer.args:
+            return outer.args[0], outer
+        st_ = enclosing_stmt(ipc)
         if isinstance(st_, ast.Assign) and isinstance(st_.targets[0], ast.Name):
             calls_ = [c for c in calls_in(f.node) if isinstance(c.func, ast.Name) and c.func.id == st_.targets[0].id and c.args]
             if len(calls_) == 1:
-                zarg, at_ = calls_[0].args[0], calls_[0]
-    if zarg is None:
+                return calls_[0].args[0], calls_[0]
         raise AnalysisError("standard_atmosphere: the evaluation point of the interpolator was not found")
     cn = f.params[1]
     z0 = f.params[0]
@@ -614,6 +632,11 @@ def rule_isa(ctx):
             for q_ in ("'", '"'):
                 assume["%s == %s%s%s" % (cn, q_, m2, q_)] = (m2 == mode)
                 assume["%s != %s%s%s" % (cn, q_, m2, q_)] = (m2 != mode)
+        live_ = [c for c in ips if flow.live_under(enclosing_stmt(c), assume)]
+        if len(live_) != 1:
+            raise AnalysisError("standard_atmosphere: %d interp1d calls can be reached in %s coordinates" % (len(live_), mode))
+        ip = live_
+        zarg, at_ = eval_point(ip[0])
         under[mode] = (flow.resolve_under(ip[0].args[0], assume, at=ip[0], stop=(z0,)), flow.resolve_under(zarg, assume, at=at_, stop=()),
                        flow.resolve_under(ip[0].args[1], assume, at=ip[0], stop=(z0,)))
     tabs = {}
